@@ -24,7 +24,7 @@ pub fn run<C: Suite>(ctx: &mut Ctx) {
         (true, true) => vec![2, 3],
         (true, false) => vec![2, 3, 4, 5],
         (false, true) => vec![2, 3, 4, 5],
-        (false, false) => vec![2, 3, 4, 5, 6],
+        (false, false) => vec![2, 3, 4, 5, 6, 7],
     };
     for k in ks {
         for kind in ["default", "sparse-u16", "derived"] {
